@@ -1453,6 +1453,7 @@ JOIN_CALLEES.update({"DataFrame.drop_na": drop_na_contract, "DataFrame.unique": 
 
 class _Join(_DF):
     prop = "C05"
+    also = ("C06",)
     callees = JOIN_CALLEES
     keys = (("k1", "k1"),)        # (left name, right name) per key column
 
@@ -1766,11 +1767,12 @@ _mk_set_2d("b")
 class FullJoinBounded(_DF):
     """full_join is a composite of nine calls (modify, left_join x2, anti_join, rbind, sort, unselect, pop/setitem);
     it is NOT brought under a deductive contract.  This entry only attaches the bounded run-time contract (every left
-    and right row at least once, no pair with unequal keys, total on empty sides) so that it runs in the thorough tier
-    and whenever another join obligation is open; it contributes one structural obligation (the method still exists
+    and right row at least once, no pair with unequal keys, total on empty sides) so that it runs in
+    every tier; it contributes one structural obligation (the method still exists
     and still delegates to left_join / anti_join / rbind)."""
     qualname, prop, variant = "DataFrame.full_join", "C05", "bounded only"
     lemma_only = True
+    always_bounded = True
 
     def setup(self, cx):
         return {"self": None}
@@ -1923,3 +1925,16 @@ class SortDFDescAsc(_SortDF):
 @register
 class SortDFDescDesc(_SortDF):
     variant, dirs = "two keys desc,desc", (-1, -1)
+
+
+# ---- C06: methods without a deductive frame / freshness contract -------------------------------------------------------
+# aggregate, count, compare, deepcopy, map, split, full_join, grouped modify, to_*; Vector.as_bytes/as_date/as_datetime/as_object,
+# map, range, rank, to_string(s): bounded run-time contract only (receiver and arguments unchanged, no shared memory, a later
+# in-place edit of the result not observable), run in every tier, labelled bounded.
+from pyvc.contract import bounded_only as _bounded_only
+_bounded_only("C06", "dataiter/data_frame.py::DataFrame[every public non-in-place method: no mutation, no aliasing]",
+              "one driver over all public non-in-place DataFrame methods; the ones that also have a deductive frame/freshness contract are listed "
+              "under functions_under_contract")
+_bounded_only("C06", "dataiter/vector.py::Vector[every public non-in-place method: no mutation, no aliasing]",
+              "one driver over all public non-in-place Vector methods; the ones that also have a deductive frame/freshness contract are listed "
+              "under functions_under_contract")
